@@ -212,7 +212,7 @@ def run(ctx):
         "rule": "evaluations = Bind/BindAndValidate calls on the real binder, each validated against Binding.tla. "
                 "TLC enumerates EVERY single-field type (11 kinds x every tag subset of size <= %d x required on none/one/all "
                 "tags x default none/one) with EVERY presence pattern over its tagged sources (+ the form->query fallback), "
-                "1 systematic + %d seeded random text assignments each; plus seeded multi-field types (2..6 fields sharing "
+                "2 systematic (distinct values; winner present-but-empty) + %d seeded random text assignments each; plus seeded multi-field types (2..6 fields sharing "
                 "names), orders of first use over 2..3 types, and concurrent binds%s. distinct_nontrivial = requests of the "
                 "case files in which, for some field, at least two of its tagged sources are present (priority decides) "
                 "or nothing is present and a default/required rule decides."
@@ -225,7 +225,8 @@ def run(ctx):
         "SetBody + Content-Type), not parsed from wire bytes",
         "header tag names are written in canonical form (A, B); JSON names are unique per field; one body per request "
         "(form XOR json)",
-        "unconstrained by the specification: error texts, present-but-empty values, ill-typed JSON literals, which of "
+        "unconstrained by the specification: error texts, empty path/JSON values (empty header/cookie/query/form values "
+        "ARE constrained: present), ill-typed JSON literals, which of "
         "repeated values a scalar takes, form->query fallback for slice kinds, nil vs empty slice",
         "TLC 1.8.0 and the CommunityModules Json reader are trusted",
     ]
